@@ -222,7 +222,10 @@ func (g *Gen) instr(in ssa.Instruction) {
 		g.oblige("makeslice", "", x.Pos(), sAnd(g.M.ixLe(g.M.IxLit(0), ln), g.M.ixLe(ln, cp)))
 		et := x.Type().Underlying().(*types.Slice).Elem()
 		o := g.newObject(g.cur)
-		g.zeroObject(g.cur, o, et)
+		for _, srt := range g.sortsOfType(et) {
+			g.zeroSort(g.cur, o, srt)
+		}
+		g.assume(sEq(app("objsize", o), g.M.ixMulC(cp, g.L.Size(et))))
 		g.defineVal(x, app("mksl", g.mkptr(o, g.M.IxLit(0)), ln, cp))
 	case *ssa.MakeMap:
 		mt := x.Type().Underlying().(*types.Map)
@@ -402,6 +405,7 @@ func (g *Gen) convert(x *ssa.Convert) {
 		if _, ok := tu.(*types.Slice); ok {
 			o := g.newObject(g.cur)
 			n := app("slen", g.val(x.X))
+			g.assume(sEq(app("objsize", o), n))
 			g.defineVal(x, app("mksl", g.mkptr(o, g.M.IxLit(0)), n, n))
 			return
 		}
